@@ -440,6 +440,10 @@ fn run_job(job: &Value, stdf: &Vec<(String, Vec<u8>)>) -> Value {
     Value::Object(o)
 }
 
+thread_local! {
+    static PANIC_LOC: std::cell::RefCell<String> = std::cell::RefCell::new(String::new());
+}
+
 fn main() {
     let args: Vec<String> = std::env::args().collect();
     if args.len() < 4 || args[1] != "run" {
@@ -450,7 +454,14 @@ fn main() {
     let stdf = std_files();
 
     // Silence the default panic message: a panic in the code under test is data.
-    std::panic::set_hook(Box::new(|_| {}));
+    // Its source location is kept for the report.
+    std::panic::set_hook(Box::new(|info| {
+        let loc = info
+            .location()
+            .map(|l| format!("{}:{}", l.file(), l.line()))
+            .unwrap_or_default();
+        PANIC_LOC.with(|p| *p.borrow_mut() = loc);
+    }));
 
     let jobs = std::io::BufReader::new(std::fs::File::open(&args[2]).expect("jobs file"));
     let mut out = std::io::BufWriter::new(
@@ -495,7 +506,8 @@ fn main() {
                     "panic".to_string()
                 };
                 let events = customasm::verif::finish();
-                json!({"index": index, "id": job.get("id"), "panic": msg, "events": events_json(events)})
+                let loc = PANIC_LOC.with(|p| p.borrow().clone());
+                json!({"index": index, "id": job.get("id"), "panic": msg, "panic_at": loc, "events": events_json(events)})
             }
         };
         writeln!(out, "{}", line).unwrap();
